@@ -88,6 +88,9 @@ pub enum COp {
 	Switch { w: u16, acct: u16 },
 	Restart { w: u16 },
 	Refresh { w: u16 },
+	/// two payments to wallet w; the one received later (higher key index) is mined first (engine op OutOfOrderReceives)
+	#[serde(alias = "OutOfOrder")]
+	OutOfOrder { w: u16 },
 	SelfSend { w: u16, other_acct: bool, args: SendArgs },
 	Cancel { s: u16, by_sender: bool },
 	/// abandon the wallet directory, create a new wallet from the same phrase, scan (explicitly or through the first
@@ -139,6 +142,7 @@ fn op_strategy() -> BoxedStrategy<COp> {
 		3 => (any::<u16>(), any::<u16>()).prop_map(|(w, acct)| COp::Switch { w, acct }),
 		3 => any::<u16>().prop_map(|w| COp::Restart { w }),
 		2 => any::<u16>().prop_map(|w| COp::Refresh { w }),
+		3 => any::<u16>().prop_map(|w| COp::OutOfOrder { w }),
 		2 => (any::<u16>(), any::<bool>(), a()).prop_map(|(w, other_acct, args)| COp::SelfSend { w, other_acct, args }),
 		1 => (any::<u16>(), any::<bool>()).prop_map(|(s, by_sender)| COp::Cancel { s, by_sender }),
 		3 => (any::<u16>(), any::<bool>(), any::<bool>(), prop_oneof![2 => Just(None), 1 => (any::<u16>(), any::<bool>()).prop_map(Some)], 0u8..3)
@@ -1460,6 +1464,12 @@ impl C15 {
 				let w = idx(*w, nw);
 				let r = sim.refresh(w);
 				out.class("refresh");
+				Ok(format!("{:?}", r))
+			}
+			COp::OutOfOrder { w } => {
+				let w = idx(*w, nw);
+				let r = sim.out_of_order_receives(w);
+				out.class(format!("out-of-order:{}", if r.is_ok() { "ok" } else { "err" }));
 				Ok(format!("{:?}", r))
 			}
 			COp::SelfSend { w, other_acct, args } => {
